@@ -748,7 +748,7 @@ func (Engine) Runs(prop, tier string) int {
 	if tier == "thorough" {
 		return 400000
 	}
-	return 12000
+	return 24000
 }
 
 func (Engine) Describe(prop string) core.Description {
